@@ -145,12 +145,16 @@ def main(argv=None):
             jobs.append((prop_id, s.name, a.tier, piece, k, seed0))
     procs = a.procs or int(os.environ.get("PBV_PROCS", "0")) or (16 if a.tier == "thorough" else 8)
     procs = max(1, min(procs, len(jobs), os.cpu_count() or 1))
-    if procs == 1:
-        results = [_job(j) for j in jobs]
+    in_parent = {s.name for s in subs if getattr(s, "in_parent", False)}  # e.g. sub-checks that start processes themselves
+    parent_jobs = [j for j in jobs if j[1] in in_parent]
+    pool_jobs = [j for j in jobs if j[1] not in in_parent]
+    if procs == 1 or not pool_jobs:
+        results = [_job(j) for j in pool_jobs]
     else:
         ctx = mp.get_context("spawn")
         with ctx.Pool(procs, maxtasksperchild=1) as pool:
-            results = pool.map(_job, jobs, chunksize=1)
+            results = pool.map(_job, pool_jobs, chunksize=1)
+    results += [_job(j) for j in parent_jobs]
 
     # 3. merge
     per_sub = {}
